@@ -32,7 +32,10 @@ CHECKS = {
              "silently, and bounded liveness after faults stop (traffic dies down, RX/TX slots free, unclaimed "
              "exchanges closed, a probe request per live session is served). Third family: a node without any responder "
              "(pure initiator) receives unsolicited reliable and unreliable messages; its own requests seconds later must "
-             "still be answered (the unaccepted messages do not occupy its single RX slot for good).",
+             "still be answered (the unaccepted messages do not occupy its single RX slot for good). Limit: the two ends draw their "
+             "exchange ids independently at random, so a peer-opened exchange carrying the id of a live exchange the node itself "
+             "opened on that session (the case in which only the role separates two exchanges) is practically never generated; "
+             "seeded defect C10 E (role dropped from the match for exactly that case) is missed, see DESIGN.md §0.6 round 3.",
         design="DESIGN.md §4 C10",
         technique="deterministic simulation with fault injection: schedule/cancellation/fault search, invariants + bounded-liveness oracle",
     ),
